@@ -141,7 +141,22 @@ func deleteHistories(f *fx.Fixture, r *rand.Rand, n int, stores, srcs []string, 
 				ops = append(ops, editOp{K: "delete", At: at, S: abs.NewTree()})
 				lastDeleted = at
 			case x < 6 && len(at) > 0 && (at.IsEntry() || f.DS.Node(at.SPath()).Kind == "container"):
-				ops = append(ops, editOp{K: "replace", At: at, S: g.Subtree(at), Src: srcs[r.Intn(len(srcs))]})
+				s := g.Subtree(at)
+				// now and then the payload also names a sibling container the store holds already
+				if !at.IsEntry() && r.Intn(3) == 0 {
+					for _, c := range pre.Cont {
+						if len(c) == len(at) && !c.IsEntry() && c.Key() != at.Key() && c[:len(c)-1].Key() == at[:len(at)-1].Key() &&
+							f.DS.Node(c.SPath()).Kind == "container" {
+							sib := g.Subtree(c)
+							s.Leaf = append(s.Leaf, sib.Leaf...)
+							s.Cont = append(s.Cont, sib.Cont...)
+							s.Ord = append(s.Ord, sib.Ord...)
+							s.Canon()
+							break
+						}
+					}
+				}
+				ops = append(ops, editOp{K: "replace", At: at, S: s, Src: srcs[r.Intn(len(srcs))]})
 			case x < 8 && lastDeleted != nil && lastDeleted.IsEntry():
 				// re-insert the entry that was deleted, into its list
 				lp := lastDeleted[:len(lastDeleted)-1]
@@ -194,7 +209,7 @@ func storesFor(fname string) (stores, srcs []string) {
 	if fname == "P0" {
 		return fx.StoreNames, append(append([]string{}, allSrcs...), "rstruct")
 	}
-	if fname == "S2" || fname == "S3" || fname == "S4" || fname == "S5" || fname == "S7" || fname == "S8" {
+	if fname == "S2" || fname == "S3" || fname == "S4" || fname == "S5" || fname == "S6" || fname == "S7" || fname == "S8" {
 		// typed values: map-backed stores only (no struct types are declared for S2)
 		return []string{"rmap", "nmap", "rslice", "nslice"}, []string{"json", "rmap", "nmap", "nslice"}
 	}
